@@ -559,9 +559,10 @@ def run(pid, tier, seed, t0):
     import x_tlsstream
     tls_stage = x_tlsstream.stage(pid, tier, seed, verdict)
     duplex_stage = __import__("x_duplex").stage(pid, tier, seed, verdict) if pid == "C09" else None
+    conn_info = __import__("x_conninfo").stage(pid, tier, seed, verdict)   # ConnInfo.tla: accept -> make-service -> serve, info per connection
     code, unlisted = verdict.finish()
     coverage = {
-        "tls_stream_model": tls_stage, "duplex_transport": duplex_stage,
+        "tls_stream_model": tls_stage, "duplex_transport": duplex_stage, "conn_info_model": conn_info,
         "states": tot_states, "transitions": tot_trans, "depth": mc.depth, "exhaustive": False,
         "exhaustive_note": "the bounded model is enumerated completely by TLC; the schedules replayed on the real server are a generated sample of its behaviours plus random walks",
         "model_config_with_coverage": mc_cfg, "model_config_states": mc.distinct, "model_configs": model_cfgs, "model_properties": MODEL_PROPS[pid], "other_model_runs": extra_models,
@@ -601,6 +602,8 @@ def run(pid, tier, seed, t0):
 
 def replay(pid, path):
     obj = json.load(open(path))
+    if isinstance(obj.get("replay"), dict) and obj["replay"].get("kind") == "conninfo-trace":
+        return __import__("x_conninfo").replay(pid, obj)
     _k = obj.get("replay", obj).get("kind") if isinstance(obj.get("replay", obj), dict) else None
     if _k == "tlsstream-ops":
         import x_tlsstream
